@@ -237,3 +237,27 @@ Example C09_history_ex : wf (GSam 4 3 (GGate 1 6 (GCar 1))) = true /\
   finite_total (GSam 4 3 (GGate 1 6 (GCar 1))) = Some 7 /\ zero_tail (GSam 4 3 (GGate 1 6 (GCar 1))) = true /\
   pos_after (GSam 4 3 (GGate 1 6 (GCar 1))) 0 [Next 3; Rest; Reset; Next 2; Query] = 2.
 Proof. vm_compute. repeat split; reflexivity. Qed.
+
+(* ==================================================================================================================
+   TRANSLATOR TIE, second part (Stim/ProofsTieRep.v): repeat() / RepeatFactory.reset as regenerated from the source. *)
+From PV Require Import Stim.ProofsTieRep.
+
+(* the ValueError of repeat(): exactly when the waveform does not fit between the delay and the end of the period,
+   in the regenerated function and in the model alike (no hypothesis) *)
+Theorem C09_source_repeat_raises_tie : forall n skip period sdelay w,
+  (gen_repeat period sdelay w n skip = None <-> zlen w > period - sdelay) /\
+  (repeat_wave n skip period sdelay w = None <-> zlen w > period - sdelay).
+Proof. exact repeat_raises_tie. Qed.
+Print Assumptions C09_source_repeat_raises_tie.
+
+(* C09_bookkeeping for RepeatFactory over the regenerated reset / next / queries: the count is (n + skip) * period *)
+Theorem C09_source_bookkeeping_repeat : forall n skip period sdelay g cs st0 i0 lw i1 w st,
+  wf (GRepeat n skip period sdelay g) = true ->
+  greset all_repaired g = Some i0 -> remaining g i0 = Some lw -> gnext all_repaired g i0 lw = Some (i1, w) ->
+  gen_repeat_reset period sdelay n skip st0 w = Some st ->
+  let st1 := fst (src_fixed_run st cs) in
+  gen_fixed_n_samples_remaining st1 = Z.max ((n + skip) * period - sumZ cs) 0 /\
+  gen_fixed_is_complete st1 = ((n + skip) * period <=? sumZ cs) /\
+  gen_fixed_n_samples st1 = (n + skip) * period.
+Proof. exact source_bookkeeping_repeat. Qed.
+Print Assumptions C09_source_bookkeeping_repeat.
